@@ -287,6 +287,15 @@ func PathOf(pkg *types.Package) string {
 	return strings.TrimPrefix(pkg.Path(), PatchPathPrefix)
 }
 
+// ReflectPathOf returns the package path reflection reports: the import path,
+// except that the main package is always "main" (as the Go linker names it).
+func ReflectPathOf(pkg *types.Package) string {
+	if pkg != nil && pkg.Name() == "main" {
+		return "main"
+	}
+	return PathOf(pkg)
+}
+
 // FullName returns the full name of a package member.
 func FullName(pkg *types.Package, name string) string {
 	if pkg == nil {
